@@ -49,6 +49,7 @@ OutOK == hist'[Len(hist')].out = Evt.out
 \* the spec action named by the event (arguments bound from the logged fields)
 Act ==
   CASE Evt.op = "write"       -> Write(Evt.h, Evt.s, Evt.t, Evt.r, Evt.c, Evt.v)
+    [] Evt.op = "touch"       -> Touch(Evt.h, Evt.s, Evt.t, Evt.r, Evt.c, Evt.kind)
     [] Evt.op = "addrow"      -> AddRow(Evt.h, Evt.s, Evt.t, Evt.n, Evt.at, Evt.d)
     [] Evt.op = "addcol"      -> AddCol(Evt.h, Evt.s, Evt.t, Evt.n, Evt.at, Evt.d)
     [] Evt.op = "delrow"      -> DelRow(Evt.h, Evt.s, Evt.t, Evt.n, Evt.at)
@@ -73,9 +74,12 @@ ProbeResult ==
     [] Evt.op = "byname"   -> ByName(Coll, Evt.nm)
     [] Evt.op = "contains" -> Contains(Coll, Evt.nm)
     [] Evt.op = "len"      -> Len(Coll)
-Probe == IsProbe /\ ProbeResult = Evt.res /\ UNCHANGED <<docs, disk, hist>> /\ PostOK(Evt.post)
+HasPost == "post" \in DOMAIN Evt
+Probe == IsProbe /\ ProbeResult = Evt.res /\ UNCHANGED <<docs, disk, hist>> /\ (HasPost => PostOK(Evt.post))
 
-Matches == Probe \/ (~IsProbe /\ Act /\ OutOK /\ PostOK(Evt.post))
+\* local effect of a touch as observed by the driver: the addressed cell shows it, no other cell changed
+Effect == Evt.op = "touch" /\ Evt.out = "ok" => Evt.seen /\ ~Evt.others
+Matches == Probe \/ (~IsProbe /\ Act /\ OutOK /\ Effect /\ PostOK(Evt.post))
 \* outside the documented domain (the spec action is not enabled for these arguments at all): the
 \* property fixes nothing, the state is re-read from the projection
 Unspecified == ~IsProbe /\ ~ENABLED Act /\ docs' = [h \in Handles |-> DocFrom(Evt.post[h])] /\ UNCHANGED <<disk, hist>>
@@ -83,6 +87,7 @@ Unspecified == ~IsProbe /\ ~ENABLED Act /\ docs' = [h \in Handles |-> DocFrom(Ev
 Clause ==
   IF IsProbe THEN (IF ProbeResult # Evt.res THEN "probe." \o Evt.op ELSE "probe.state-changed")
   ELSE IF ~ENABLED (Act /\ OutOK) THEN "outcome"
+  ELSE IF ~Effect THEN "touch.effect"
   ELSE IF ~ENABLED (Act /\ PShape(Evt.post)) THEN "post.shape"
   ELSE IF ~ENABLED (Act /\ PNames(Evt.post)) THEN "post.names"
   ELSE IF ~ENABLED (Act /\ PDims(Evt.post)) THEN "post.dims"
